@@ -6,6 +6,8 @@ import ast
 from ..core import (AnalysisError, body_nodes, call_name, dotted, is_self_attr, key_text, names_in,
                     params, parent, stmts_of, unparse)
 from ..linform import NotPoly, Poly, eval_poly
+from ..normal import inline_temps
+from ..pattern import pmatch
 from .c02 import check_flag_l
 
 CH = 'tenpy/linalg/charges.py'
@@ -254,33 +256,110 @@ def check_fusion_rule(prog, rep):
         rep.violation('FUSION-rule', m, 'LegPipe.to_LegCharge', 'state',
                       'to_LegCharge must carry over exactly the LegCharge state of the pipe',
                       f2.lineno)
-    # map_incoming_flat: C-order strides (last leg fastest), offset = slice start + q_map[0] + within
-    f3 = m.func('LegPipe.map_incoming_flat')
-    rep.instance('FUSION-flatmap', {})
-    src3 = unparse(f3)
-    loop = [s for s in stmts_of(f3) if isinstance(s, ast.For)]
-    ok = bool(loop) and unparse(loop[0].iter) == 'range(self.nlegs - 1, -1, -1)' and \
-        'within_block_out += stride * within_block' in src3 and \
-        'return self.slices[qind_out] + q_map[0] + within_block_out' in src3 and \
-        'qind_out = q_map[2]' in src3
-    if not ok:
-        rep.violation('FUSION-flatmap', m, 'LegPipe.map_incoming_flat', 'flat-map',
+    check_flatmap(m, rep)
+
+
+def _sum_terms(e):
+    if isinstance(e, ast.BinOp) and isinstance(e.op, ast.Add):
+        return _sum_terms(e.left) + _sum_terms(e.right)
+    return [e]
+
+
+def check_flatmap(m, rep):
+    """map_incoming_flat on its normal form (temporaries inlined): the loop runs over the incoming
+    legs from the last to the first, accumulating `acc += stride * within_block` and then
+    `stride *= block size` (C order: last leg fastest); the result is
+    slices[row[2]] + row[0] + acc for the q_map row of the incoming block indices."""
+    q = 'LegPipe.map_incoming_flat'
+    f3 = inline_temps(m.func(q))
+    rep.instance('FUSION-flatmap', {'normal_form_inlined': f3._inlined_names})
+
+    def bad(msg, node=None):
+        rep.violation('FUSION-flatmap', m, q, 'flat-map',
                       'flat index = slices[q_map[j,2]] + q_map[j,0] + C-order offset within the '
-                      'block (last incoming leg fastest)', f3.lineno)
+                      'block (last incoming leg fastest): ' + msg, (node or f3).lineno)
+
+    loops = [s for s in f3.body if isinstance(s, ast.For)]
+    if not loops:
+        return bad('no loop over the incoming legs')
+    lp = loops[0]
+    desc = pmatch('range($$n - 1, -1, -1)', lp.iter) or pmatch('reversed(range($$n))', lp.iter) \
+        or pmatch('range($$n)[::-1]', lp.iter)
+    if desc is None or unparse(desc['$$n']) not in ('self.nlegs', 'len(self.legs)',
+                                                    'len(incoming_indices)'):
+        return bad('the loop `for %s in %s` does not run from the last incoming leg down to the '
+                   'first' % (unparse(lp.target), unparse(lp.iter)), lp)
+    ax = unparse(lp.target)
+    acc = stride = None
+    order = []
+    for st in lp.body:
+        e = pmatch('$acc += $stride * $$leg.get_qindex($$ind)[1]', st)
+        if e and unparse(e['$$leg']) == 'self.legs[%s]' % ax and \
+                unparse(e['$$ind']) == 'incoming_indices[%s]' % ax:
+            acc, stride = e['$acc'], e['$stride']
+            order.append('acc')
+        e = pmatch('$stride *= $$leg.slices[$$q + 1] - $$leg.slices[$$q]', st)
+        if e and unparse(e['$$leg']) == 'self.legs[%s]' % ax and pmatch(
+                '$$leg.get_qindex($$ind)[0]', e['$$q']) and (stride in (None, e['$stride'])):
+            stride = e['$stride']
+            order.append('stride')
+    if order != ['acc', 'stride']:
+        return bad('inside the loop the offset must grow by stride*within_block BEFORE the stride '
+                   'is multiplied by the block size of that leg (found %s)' % order, lp)
+    inits = {unparse(s.targets[0]): unparse(s.value) for s in f3.body
+             if isinstance(s, ast.Assign) and s.lineno < lp.lineno}
+    if inits.get(acc) != '0' or inits.get(stride) != '1':
+        return bad('offset starts at 0 and stride at 1', lp)
+    rets = [s for s in f3.body if isinstance(s, ast.Return)]
+    if not rets:
+        return bad('no return')
+    terms = _sum_terms(rets[-1].value)
+    rest = [t for t in terms if unparse(t) != acc]
+    if len(terms) != 3 or len(rest) != 2:
+        return bad('returns `%s`' % unparse(rets[-1].value)[:100], rets[-1])
+    ok = False
+    for a, b in (rest, rest[::-1]):
+        e = pmatch('self.slices[$$row[2]]', a)
+        if e and pmatch('$$row[0]', b, e):
+            row = e['$$row']
+            r = pmatch('self.q_map[$$j, :]', row) or pmatch('self.q_map[$$j]', row)
+            if r and pmatch('self._map_incoming_qind($qin)[0]', r['$$j']):
+                ok = True
+    if not ok:
+        bad('returns `%s`' % unparse(rets[-1].value)[:160], rets[-1])
+
+
+def _is_qmap(e):
+    return isinstance(e, (ast.Name, ast.Attribute)) and unparse(e).endswith('q_map')
+
+
+def _is_row(e):
+    if isinstance(e, ast.Name) and e.id.endswith('q_map_row'):
+        return True
+    if isinstance(e, ast.Subscript) and _is_qmap(e.value):
+        sl = e.slice
+        if isinstance(sl, ast.Tuple):
+            return len(sl.elts) == 2 and isinstance(sl.elts[1], ast.Slice) and \
+                sl.elts[1].lower is None and sl.elts[1].upper is None and \
+                not isinstance(sl.elts[0], ast.Slice)
+        return not isinstance(sl, ast.Slice)
+    return False
 
 
 def _qmap_cols(node):
-    """for a Subscript whose value is a q_map-like object return the column spec text"""
+    """for a Subscript of a q_map-like object (the 2D table or one of its rows) return the text
+    of the column specification"""
     if not isinstance(node, ast.Subscript):
         return None
-    base = unparse(node.value)
-    if not (base.endswith('q_map') or base.endswith('q_map_row')):
-        return None
-    sl = node.slice
-    if isinstance(sl, ast.Tuple) and len(sl.elts) == 2:
-        return unparse(sl.elts[1])
-    if base.endswith('q_map_row') or base == 'q_map' and not isinstance(sl, ast.Tuple):
-        return unparse(sl)
+    if _is_row(node.value):
+        # q_map[rows, :] is a sub-table when `rows` is an index array: then a 2-tuple follows
+        if isinstance(node.slice, ast.Tuple) and len(node.slice.elts) == 2:
+            return unparse(node.slice.elts[1])
+        return unparse(node.slice)
+    if _is_qmap(node.value):
+        sl = node.slice
+        if isinstance(sl, ast.Tuple) and len(sl.elts) == 2:
+            return unparse(sl.elts[1])
     return None
 
 
@@ -292,7 +371,7 @@ def check_qmap_roles(prog, rep):
              (mc, 'LegPipe.map_incoming_flat', None)]
     n = 0
     for mod, qual, role in sites:
-        f = mod.func(qual)
+        f = inline_temps(mod.func(qual))
         # q_map-like local aliases: x = pipe.q_map[rows, :]  /  q_map_row = p.q_map[qi, :]
         for node in body_nodes(f):
             col = _qmap_cols(node)
